@@ -194,6 +194,10 @@ func (g *projGen) method(ci, mi int, prefixParams []string, types []pType, file 
 			m.Annots = append(m.Annots, pAnnot{Name: "Response", Value: "204", Desc: "done"})
 		}
 	}
+	if r.Chance(1, 8) {
+		// a receiver without a name (or with the blank one) is a method of the controller all the same
+		m.Recv = rng.Pick(r, []string{"anon-ptr", "anon-val", "blank"})
+	}
 	// up to four, so that a repeated code (a warning only) is followed by further codes now and then
 	for k := r.Intn(5); k > 0; k-- {
 		m.Annots = append(m.Annots, pAnnot{Name: "ErrorResponse", Value: rng.Pick(r, []string{"400", "404", "409", "500"}), Desc: "failure"})
@@ -506,6 +510,15 @@ func genProject(r *rng.R, nPerturb int) (pProject, []string) {
 		m0 := &p.Controllers[0].Methods[0]
 		m0.Results = []string{"other.Thing", m0.Results[len(m0.Results)-1]}
 	}
+	if os.Getenv("VH_GENERIC") != "" && r.Chance(2, 3) {
+		// C14 only: a generic struct instantiated with a declared struct, an enum or a builtin as a route's result.
+		// Whether the tool supports this or reports an error, it must not crash.
+		p.Types = append(p.Types, pType{Kind: "struct", Name: "Box[T any]", Pkg: "ctl", File: "types.go", Fields: []pField{{Name: "V", Type: "T", Tag: `json:"v"`}, {Name: "N", Type: "int", Tag: `json:"n"`}}},
+			pType{Kind: "struct", Name: "Rec", Pkg: "ctl", File: "types.go", Fields: []pField{{Name: "A", Type: "string", Tag: `json:"a"`}}})
+		gm := pMethod{Name: "Boxed", File: p.Controllers[0].File, Results: []string{"Box[" + rng.Pick(r, []string{"Rec", "string", "int", "[]Rec", "*Rec", "Box[Rec]"}) + "]", "error"},
+			Annots: []pAnnot{{Name: "Method", Value: "GET"}, {Name: "Route", Value: "/boxed"}}}
+		p.Controllers[0].Methods = append(p.Controllers[0].Methods, gm)
+	}
 	p.Config.EnumValidator = r.Chance(1, 3)
 	p.GroupParams = r.Chance(1, 3)
 	if p.GroupParams {
@@ -697,6 +710,21 @@ func genProj(seed uint64, n int, tier string, emit func(string, []string, any)) 
 					} else if !secured {
 						m.Annots = append(m.Annots, pAnnot{Name: "Security", Value: p.Config.Schemes[0].Name})
 					}
+				}
+			}
+			if cr.Chance(1, 3) {
+				// a VISIBLE route without any security whose annotations also draw a warning (a property on an
+				// annotation that takes none): the warning must not hide the missing-security error
+				c := &p.Controllers[cr.Intn(len(p.Controllers))]
+				if len(c.Methods) > 0 {
+					m := &c.Methods[cr.Intn(len(c.Methods))]
+					m.Annots = strip(m.Annots)
+					for ai := range m.Annots {
+						if m.Annots[ai].Name == "Method" {
+							m.Annots[ai].Props = map[string]any{"note": "x"}
+						}
+					}
+					applied = append(applied, "enforce-unsecured-with-warning")
 				}
 			}
 			applied = append(applied, "enforce-scenario")
